@@ -60,7 +60,7 @@ V06(e) ==
     IF e.n_errs >= 0 /\ \E j \in 1..Len(e.errs) : ~IsInt(e.errs[j]) THEN "ReportedErrorNotFinite"
     ELSE IF ~IsInt(e.true) THEN "ReturnedDecompositionNotFinite"
     ELSE IF e.n_errs < 0 THEN "ok"                     \* this call exposes no list
-    ELSE IF ~(Len(e.errs) \in {Len(s.errs) : s \in DoneStates(c)}) THEN "ErrsLen"
+    ELSE IF ~(Len(e.errs) \in LenSet(c)) THEN "ErrsLen"      \* LenSet = lengths of the model's Return states (Driver.tla)
     ELSE IF Len(e.errs) > 0 /\ ~LastOK(c, e.errs[Len(e.errs)], e.true) THEN "LastErrorIsNotErrorOfReturned"
     ELSE IF PrefixStable(c) /\ prev.ev = "Prefix" /\ prev.n_errs >= 0 /\ ~IsPrefixWithin(prev.errs, e.errs, 1)
          THEN "NotPrefixOfLongerRun"
@@ -187,6 +187,7 @@ Verdict(e) ==
     ELSE IF cur.ev # "Config" THEN "NoConfig"
     ELSE IF e.ev = "Prefix" THEN
         IF e.out # "ok" THEN "ok"                   \* a raised call carries no obligation (counted by the harness)
+        ELSE IF e.malformed THEN "ReturnedObjectIsNotADecomposition"   \* pieces that do not even fit together
         ELSE CASE Prop = "C06" -> V06(e)
                [] Prop = "C07" -> V07(e)
                [] Prop = "C08" -> V08(e)
